@@ -1,6 +1,6 @@
 From Coq Require Import List ZArith String Ascii Bool NArith Lia Permutation Sorted.
 Import ListNotations.
-From Bexpr Require Import Base Strconv Ast Univ Eval Props.
+From Bexpr Require Import Base Strconv Ast Univ Eval Props KeyEq.
 Open Scope string_scope.
 
 Definition hidden (tn : string) (f : fdecl) : bool :=
@@ -25,6 +25,9 @@ Inductive veq : gtype -> gval -> gval -> Prop :=
 | veq_struct t name fs va vb : under t = TStruct name fs -> veq_fields fs va vb -> veq t (VStruct va) (VStruct vb)
 | veq_smap t n ka kb' kb :                      (* the same string-keyed map presented in another order *)
     kind_of_type (key_type t) = KString -> str_keyed ka -> NoDup (map skey ka) -> Permutation ka kb' ->
+    Forall2 (fun x y => fst x = fst y /\ veq (elem_type t) (snd x) (snd y)) kb' kb -> veq t (VMap n ka) (VMap n kb)
+| veq_pmap t n ka kb' kb :                      (* a map whose key type is not `string` (it cannot be quantified over) in another order *)
+    type_eqb (key_type t) TString = false -> keys_distinct (key_type t) ka -> Permutation ka kb' ->
     Forall2 (fun x y => fst x = fst y /\ veq (elem_type t) (snd x) (snd y)) kb' kb -> veq t (VMap n ka) (VMap n kb)
 with veq_fields : list fdecl -> list gval -> list gval -> Prop :=
 | vf_nil fs : veq_fields fs [] []
@@ -121,6 +124,12 @@ Proof.
 Qed.
 
 
+Lemma pmap_find t kt k ka kb' kb : keys_distinct kt ka -> Permutation ka kb' ->
+  Forall2 (fun x y => fst x = fst y /\ veq t (snd x) (snd y)) kb' kb ->
+  match map_find kt k ka, map_find kt k kb with
+  | Some a, Some b => veq t a b | None, None => True | _, _ => False end.
+Proof. intros Hd Hp H2. rewrite (map_find_perm kt k ka kb' Hd Hp). exact (map_find_veq t kt k kb' kb H2). Qed.
+
 (* ---- string-keyed maps up to permutation ---- *)
 Lemma map_find_str kvs k : str_keyed kvs ->
   map_find TString (VStr k) kvs = match find (fun kv => String.eqb (skey kv) k) kvs with Some kv => Some (snd kv) | None => None end.
@@ -197,7 +206,7 @@ Proof.
   pose proof (strip_ptrs_veq 8 _ _ (strip_iface_veq _ _ H)) as H'.
   destruct (strip_ptrs 8 (strip_iface x)) as [[t1 v1]|], (strip_ptrs 8 (strip_iface y)) as [[t2 v2]|]; cbn in H'; try tauto; [|cbn; auto].
   destruct H' as [<- Hv]. rewrite Htag.
-  inversion Hv as [t v | t a b Hab | t dyn a b Hab | t n la lb Hl | t la lb Hl | t n ka kb Hk | t name fs va vb Hu Hf | t n ka kb' kb Hkk Hsk Hnd Hperm Hk2]; subst.
+  inversion Hv as [t v | t a b Hab | t dyn a b Hab | t n la lb Hl | t la lb Hl | t n ka kb Hk | t name fs va vb Hu Hf | t n ka kb' kb Hkk Hsk Hnd Hperm Hk2 | t n ka kb' kb Hnk Hkd Hperm Hk2]; subst.
   - (* identical values *)
     match goal with |- res_rel rveq ?a ?a => destruct a as [r| |]; cbn; auto; apply rveq_refl end.
   - cbn; auto.
@@ -225,6 +234,10 @@ Proof.
     rewrite (map_find_kt_irrel _ ka part Hsk), (map_find_kt_irrel _ kb part Hskb).
     pose proof (smap_find (elem_type t1) part ka kb' kb Hsk Hnd Hperm Hk2) as Hm.
     destruct (map_find TString (VStr part) ka), (map_find TString (VStr part) kb); cbn; try tauto; try (split; auto).
+  - (* a map with another key type in another order *)
+    destruct (coerce_key _ _) as [k| |]; cbn; auto.
+    pose proof (pmap_find _ (key_type t1) k _ _ _ Hkd Hperm Hk2) as Hm.
+    destruct (map_find _ k ka), (map_find _ k kb); cbn; try tauto; try (split; auto).
 Qed.
 
 Lemma get_loop_veq parts : forall x y, rveq x y -> res_rel rveq (get_loop cfg parts x) (get_loop cfg parts y).
@@ -253,10 +266,11 @@ Qed.
 Lemma r_len_veq x y : rveq x y -> r_len x = r_len y.
 Proof.
   destruct x as [[t1 v1]|], y as [[t2 v2]|]; cbn [rveq]; try tauto. intros [<- H].
-  inversion H as [t v | t a b Hab | t dyn a b Hab | t n la lb Hl | t la lb Hl | t n ka kb Hk | t name fs va vb Hu Hf | t n ka kb' kb Hkk Hsk Hnd Hperm Hk2]; subst; try reflexivity; cbn.
+  inversion H as [t v | t a b Hab | t dyn a b Hab | t n la lb Hl | t la lb Hl | t n ka kb Hk | t name fs va vb Hu Hf | t n ka kb' kb Hkk Hsk Hnd Hperm Hk2 | t n ka kb' kb Hnk Hkd Hperm Hk2]; subst; try reflexivity; cbn.
   - rewrite (Forall2_len _ _ _ Hl). reflexivity.
   - rewrite (Forall2_len _ _ _ Hl). reflexivity.
   - rewrite (Forall2_len _ _ _ Hk). reflexivity.
+  - rewrite (Permutation_length Hperm), (Forall2_len _ _ _ Hk2). reflexivity.
   - rewrite (Permutation_length Hperm), (Forall2_len _ _ _ Hk2). reflexivity.
 Qed.
 
@@ -267,7 +281,7 @@ Proof. induction 1 as [|a b la lb Hab _ IH]; cbn; [reflexivity|]. rewrite IH. f_
 Lemma bytes_of_veq x y : rveq x y -> bytes_of x = bytes_of y.
 Proof.
   destruct x as [[t1 v1]|], y as [[t2 v2]|]; cbn [rveq]; try tauto. intros [<- H].
-  inversion H as [t v | t a b Hab | t dyn a b Hab | t n la lb Hl | t la lb Hl | t n ka kb Hk | t name fs va vb Hu Hf | t n ka kb' kb Hkk Hsk Hnd Hperm Hk2]; subst; try reflexivity;
+  inversion H as [t v | t a b Hab | t dyn a b Hab | t n la lb Hl | t la lb Hl | t n ka kb Hk | t name fs va vb Hu Hf | t n ka kb' kb Hkk Hsk Hnd Hperm Hk2 | t n ka kb' kb Hnk Hkd Hperm Hk2]; subst; try reflexivity;
     cbn; destruct (kind_of_type t1); try reflexivity.
   destruct (type_eqb _ _); [|reflexivity]. rewrite (bytes_map_veq _ _ _ Hl). reflexivity.
 Qed.
@@ -281,7 +295,7 @@ Lemma r_elems_veq x y : rveq x y ->
 Proof.
   destruct x as [[t1 v1]|], y as [[t2 v2]|]; cbn [rveq]; try tauto. intros [<- H].
   assert (Hrefl : forall l : list rv, Forall2 rveq l l) by (induction l; constructor; auto using rveq_refl).
-  inversion H as [t v | t a b Hab | t dyn a b Hab | t n la lb Hl | t la lb Hl | t n ka kb Hk | t name fs va vb Hu Hf | t n ka kb' kb Hkk Hsk Hnd Hperm Hk2]; subst; cbn; auto.
+  inversion H as [t v | t a b Hab | t dyn a b Hab | t n la lb Hl | t la lb Hl | t n ka kb Hk | t name fs va vb Hu Hf | t n ka kb' kb Hkk Hsk Hnd Hperm Hk2 | t n ka kb' kb Hnk Hkd Hperm Hk2]; subst; cbn; auto.
   - destruct v2; cbn; auto; try apply Hrefl.
   - apply map_some_veq; assumption.
   - apply map_some_veq; assumption.
@@ -294,7 +308,7 @@ Local Opaque coerce parse_int parse_uint parse_float parse_bool.
 Lemma deref_gval_veq : forall v1 t v2, veq t v1 v2 -> rveq (deref_gval t v1) (deref_gval t v2).
 Proof.
   induction v1; intros t v2 H;
-    inversion H as [t0 v0 | t0 a0 b0 Hab | t0 dyn0 a0 b0 Hab | t0 n0 la lb Hl | t0 la lb Hl | t0 n0 ka kb Hk | t0 name0 fs0 va vb Hu Hf | t0 n0 ka kb' kb Hkk Hsk Hnd Hperm Hk2]; subst;
+    inversion H as [t0 v0 | t0 a0 b0 Hab | t0 dyn0 a0 b0 Hab | t0 n0 la lb Hl | t0 la lb Hl | t0 n0 ka kb Hk | t0 name0 fs0 va vb Hu Hf | t0 n0 ka kb' kb Hkk Hsk Hnd Hperm Hk2 | t0 n0 ka kb' kb Hnk Hkd Hperm Hk2]; subst;
     try apply rveq_refl; cbn [deref_gval]; try (cbn; split; [reflexivity|assumption]).
   apply IHv1. assumption.
 Qed.
@@ -365,6 +379,23 @@ Proof.
   destruct (map_find TString (VStr raw) ka), (map_find TString (VStr raw) kb); try tauto; destruct (type_eqb _ _); reflexivity.
 Qed.
 
+Lemma in_map_pmap raw t ka kb' kb :
+  keys_distinct (key_type t) ka -> Permutation ka kb' ->
+  Forall2 (fun x y => fst x = fst y /\ veq (elem_type t) (snd x) (snd y)) kb' kb ->
+  in_map raw t ka = in_map raw t kb.
+Proof.
+  intros Hkd Hperm Hk2. unfold in_map.
+  assert (Hp : forall k, match map_find (key_type t) k ka, map_find (key_type t) k kb with
+                         | Some _, Some _ => True | None, None => True | _, _ => False end).
+  { intros k. pose proof (pmap_find (elem_type t) (key_type t) k ka kb' kb Hkd Hperm Hk2) as Hm.
+    destruct (map_find _ k ka), (map_find _ k kb); tauto. }
+  destruct (type_eqb (key_type t) TString).
+  - specialize (Hp (VStr raw)). destruct (map_find _ _ ka), (map_find _ _ kb); try tauto; reflexivity.
+  - destruct (kind_of_type (key_type t)); try reflexivity;
+      match goal with |- context [map_find _ ?k ka] => specialize (Hp k) end;
+      destruct (map_find _ _ ka), (map_find _ _ kb); try tauto; reflexivity.
+Qed.
+
 Lemma do_in_veq raw x y : rveq x y -> do_in raw x = do_in raw y.
 Proof.
   intros H. unfold do_in. destruct raw as [raw|]; [|reflexivity].
@@ -372,11 +403,12 @@ Proof.
   pose proof (r_elems_veq _ _ H) as He.
   destruct x as [[t1 v1]|], y as [[t2 v2]|]; cbn [rveq] in H; try tauto; try reflexivity.
   destruct H as [<- Hv].
-  inversion Hv as [t v | t a b Hab | t dyn a b Hab | t n la lb Hl | t la lb Hl | t n ka kb Hk | t name fs va vb Hu Hf | t n ka kb' kb Hkk Hsk Hnd Hperm Hk2]; subst; try reflexivity;
+  inversion Hv as [t v | t a b Hab | t dyn a b Hab | t n la lb Hl | t la lb Hl | t n ka kb Hk | t name fs va vb Hu Hf | t n ka kb' kb Hkk Hsk Hnd Hperm Hk2 | t n ka kb' kb Hnk Hkd Hperm Hk2]; subst; try reflexivity;
     cbn [kind_of] in *; destruct (kind_of_type t1); try reflexivity;
     try (destruct (r_elems (Some (t1, _))) as [ea|], (r_elems (Some (t1, _))) as [eb|]; try tauto; try reflexivity; apply in_elems_veq; assumption).
   - apply in_map_veq; assumption.
   - eapply in_map_smap; eassumption.
+  - eapply in_map_pmap; eassumption.
 Qed.
 
 Lemma res_rel_refl (r : result rv) : res_rel rveq r r.
@@ -478,7 +510,7 @@ Proof.
     rewrite <- (rveq_kind _ _ Hg).
     destruct v as [[t1 v1]|], w as [[t2 v2]|]; cbn [rveq] in Hg; try tauto; try reflexivity.
     destruct Hg as [<- Hv].
-    inversion Hv as [t v | t a0 b0 Hab | t dyn a0 b0 Hab | t n la lb Hll | t la lb Hll | t n ka kb Hk | t name fs va vb Hu Hf | t n ka kb' kb Hkk Hsk Hnd Hperm Hk2]; subst;
+    inversion Hv as [t v | t a0 b0 Hab | t dyn a0 b0 Hab | t n la lb Hll | t la lb Hll | t n ka kb Hk | t name fs va vb Hu Hf | t n ka kb' kb Hkk Hsk Hnd Hperm Hk2 | t n ka kb' kb Hnk Hkd Hperm Hk2]; subst;
       cbn [kind_of]; destruct (kind_of_type t1); try reflexivity;
       try (destruct v2; try reflexivity; try (destruct (type_eqb _ _); try reflexivity); apply coll_loop_ext; assumption).
     all: try (rewrite (map_const_len la lb (Forall2_len _ _ _ Hll)); apply coll_loop_ext; assumption).
@@ -487,6 +519,7 @@ Proof.
       change (fun kv : gval * gval => match fst kv with VStr k => k | _ => "" end) with skey.
       rewrite (c14_sort_keys_order_free (map skey ka) (map skey kb)); [apply coll_loop_ext; assumption|].
       rewrite <- (skeys_forall2 _ kb' kb Hk2). apply Permutation_map. exact Hperm.
+    + rewrite Hnk. reflexivity.
 Qed.
 End Ops.
 End V.
@@ -536,3 +569,41 @@ Proof.
   - discriminate.
 Qed.
 Print Assumptions c14_map_order_free.
+
+(* C14 for maps whose key type is not `string` (int, bool, float, named string, interface keys): they cannot be quantified over, but
+   they are indexed by selectors and tested by `in` / `is empty`; with pairwise unequal keys the order of the entries changes no outcome *)
+Theorem c14_keyed_map_order_free re cfg e t n ka kb :
+  hook cfg = None -> type_eqb (key_type t) TString = false -> keys_distinct (key_type t) ka -> Permutation ka kb ->
+  eval re cfg [] e (Some (t, VMap n ka)) = eval re cfg [] e (Some (t, VMap n kb)).
+Proof.
+  intros Hh Hk Hd Hp. apply c08_noninterference; [exact Hh|]. cbn. split; [reflexivity|].
+  eapply veq_pmap; eauto. apply forall2_refl_veq.
+Qed.
+
+(* ... and anywhere inside the datum: the relation is a congruence (pointers, interfaces, slices, arrays, map values, visible
+   struct fields), so two data that differ by such reorderings at any depth, in any number of places, evaluate alike *)
+Theorem c14_order_free_anywhere re cfg e (d1 d2 : iface) :
+  hook cfg = None -> rveq (if String.eqb (tagname cfg) "" then "pointer" else tagname cfg) d1 d2 ->
+  eval re cfg [] e d1 = eval re cfg [] e d2.
+Proof. exact (c08_noninterference re cfg e d1 d2). Qed.
+
+Example c14_keyed_premise_met :
+  let t := TMap (TInt I0) TString in
+  let ka := [(VInt 1, VStr "a"); (VInt 2, VStr "b")] in let kb := [(VInt 2, VStr "b"); (VInt 1, VStr "a")] in
+  type_eqb (key_type t) TString = false /\ keys_distinct (key_type t) ka /\ Permutation ka kb /\ ka <> kb.
+Proof.
+  cbn. split; [reflexivity|]. split; [repeat constructor|]. split; [apply perm_swap| discriminate].
+Qed.
+
+(* a list of maps, one string-keyed and one int-keyed, each presented in two orders: related, hence indistinguishable *)
+Example c14_nested_instance tn :
+  let tm := TMap TString (TInt I0) in let ti := TMap (TInt I0) TString in
+  let t := TSlice TIface in
+  rveq tn (Some (t, VSlice false [VIface tm (VMap false [(VStr "a", VInt 1); (VStr "b", VInt 2)]); VIface ti (VMap false [(VInt 1, VStr "x"); (VInt 2, VStr "y")])]))
+          (Some (t, VSlice false [VIface tm (VMap false [(VStr "b", VInt 2); (VStr "a", VInt 1)]); VIface ti (VMap false [(VInt 2, VStr "y"); (VInt 1, VStr "x")])])).
+Proof.
+  cbn. split; [reflexivity|]. apply veq_slice. constructor; [|constructor; [|constructor]].
+  - apply veq_iface. eapply veq_smap; [reflexivity| repeat constructor; eexists; reflexivity| repeat constructor; cbn; intuition discriminate| apply perm_swap| apply forall2_refl_veq].
+  - apply veq_iface. eapply veq_pmap; [reflexivity| cbn; repeat constructor| apply perm_swap| apply forall2_refl_veq].
+Qed.
+Print Assumptions c14_keyed_map_order_free.
